@@ -147,9 +147,43 @@ def leaf_paths(d, path=()):
     return out
 
 
+def placeholder_fault(r, root):
+    """Read a keyword the object does not have: on a dictionary from loads that leaves an empty dictionary of the library's own class
+    behind (on a plain dict the same empty value is assigned).  It is in the dictionary, so the schema judges it."""
+    objs = []
+
+    def walk(d, path):
+        if isinstance(d, dict):
+            if d.get("__type__") in vocab.object_types():
+                objs.append((path, d))
+            for k, v in d.items():
+                if not (isinstance(k, str) and k.startswith("__")):
+                    walk(v, path + (k,))
+        elif isinstance(d, list):
+            for i, v in enumerate(d):
+                walk(v, path + (i,))
+
+    walk(root, ())
+    if not objs:
+        return None
+    path, o = r.choice(objs)
+    known = [k for k, p in vocab.props(o["__type__"]).items() if k not in o and not k.startswith("__") and "block" not in p.kinds()
+             and k != "include"]
+    key = r.choice(known) if known and r.random() < 0.7 else "nosuchkeyword"
+    try:
+        o[key]
+    except KeyError:
+        o[key] = type(o)()
+    if key not in o:
+        return None
+    return {"path": [str(x) for x in path + (key,)], "old": "(missing)", "new": "empty dictionary left by reading the missing key: " + type(o[key]).__name__}
+
+
 def dict_fault(r, root):
     """Edit a loaded dictionary through the dict API so that one value (at any depth / list index, also inside nested
     lists such as POINTS pairs) has the wrong type or arity.  Returns a description or None."""
+    if r.random() < 0.2:
+        return placeholder_fault(r, root)
     paths = leaf_paths(root)
     if not paths:
         return None
